@@ -3,6 +3,7 @@
 #include "psc/error.h"
 #include "nodes/loop/control.h"
 #include "nodes/loop/while.h"
+#include "verif_hook.h"
 
 WhileLoopNode::WhileLoopNode(const Token &token, Node &condition, PSC::Block &block)
     : UnaryNode(token, condition), block(block)
@@ -10,6 +11,9 @@ WhileLoopNode::WhileLoopNode(const Token &token, Node &condition, PSC::Block &bl
 
 std::unique_ptr<NodeResult> WhileLoopNode::evaluate(PSC::Context &ctx) {
     while (true) {
+#ifdef PSEUDOENGINE2_VERIF
+        if (verif::step()) throw PSC::RuntimeError(token, ctx, "VERIF budget exhausted: steps");
+#endif
         auto conditionRes = node.evaluate(ctx);
 
         if (conditionRes->type != PSC::DataType::BOOLEAN)
